@@ -322,7 +322,14 @@ def run(ctx):
         links = [gc for gc in graph_calls(ctx, v) if gc.meth == "add_edge" and len(gc.vargs) == 2]
         guards = 0
         for ln in links:
-            for iff in v.enclosing_all(ln.node, (ast.If,)):
+            # tests that decide whether the arc is created: the enclosing ifs, and earlier `if ...: continue` guards of the loops
+            # the link sits in
+            deciders = list(v.enclosing_all(ln.node, (ast.If,)))
+            for lp_ in v.enclosing_all(ln.node, (ast.For, ast.While)):
+                for i_ in ast.walk(lp_):
+                    if isinstance(i_, ast.If) and i_ not in deciders and i_.lineno < ln.node.lineno and any(isinstance(y, (ast.Continue, ast.Break)) for b_ in i_.body + i_.orelse for y in ast.walk(b_)):
+                        deciders.append(i_)
+            for iff in deciders:
                 for t in ast.walk(iff.test):
                     if isinstance(t, ast.Compare) and len(t.ops) == 1 and isinstance(t.ops[0], (ast.NotIn, ast.In)):
                         key = v.inline(t.left)
